@@ -9,7 +9,13 @@ Line protocol handler for the `grp` domain (C10, C11). One self-contained case p
 * `<members>` `g.r` per person joined by `,` (group index . flattened role index), `-` if none
 * `<role>`    `-` | `?` (not a Role object) | `t<k>` (top-level role k) | `f<k>` (flattened role k)
 * values      `i:1,-2,3` integers, `b:TFT` booleans
-* ops         sum any all min max nb nth first from project positions omap hasrole rank chain
+* ops         sum any all min max nb nth first from project positions omap hasrole rank partner
+              pnth <positions> <k> <default> <vals> / pfirst <positions> <vals>   (assigned members_position)
+              chain <p|g> <shortcuts> <op> <args…>
+              chain2 <roles2> <count2> <members2> <c0|c1|c2|c3> <p|g|G> <shortcuts> <op> <args…>
+                (second group entity; c1: entity 0 declares entity 1 in containing_entities, c2: the
+                 converse, c3: both; shortcuts h k fp x t<k> f<k> T<k> F<k>; final ops also
+                 `project <vals>` — not projectable — and `call <vals>` — a variable holding <vals>)
 
 Answers: comma-joined values (`T`/`F`, integers, `inf`, `-inf`), `[]` for an empty array, `ERR`
 for any error of the model, `BAD` for a malformed line.
@@ -87,67 +93,146 @@ def out {α} (f : α → String) : Except String (List α) → String
   | .ok l => showList f l
   | .error _ => "ERR"
 
-/-- result of a method as extended integers (booleans as 0/1), for the projector chains -/
+/-- the methods of the protocol -/
 inductive GOp
-  | sum (v : Vals) | any (v : Vals) | all (v : List Bool) | min (v : List Int) | max (v : List Int) | nb
+  | sum (v : Vals) | any (v : Vals) | all (v : Vals) | min (v : Vals) | max (v : Vals) | nb
   | nth (k : Nat) (d : Int) (v : Vals) | first (v : Vals) | from_ (d : Int) (v : Vals)
-  | hasrole | rank (c : List Int) (b : List Bool)
+  | pnth (pos : List Nat) (k : Nat) (d : Int) (v : Vals) | pfirst (pos : List Nat) (v : Vals)
+  | hasrole | rank (c : List Int) (b : List Bool) | partner (v : Vals)
+  | project (v : Vals) | call (v : List Int)
+
+def parseNats (s : String) : Option (List Nat) :=
+  match parseVals s with
+  | some (.ints l) => l.mapM fun i => if 0 ≤ i then some i.toNat else none
+  | _ => none
 
 def parseOp (op : String) (args : List String) : Option GOp :=
   match op, args with
   | "sum", [v] => (parseVals v).map .sum
   | "any", [v] => (parseVals v).map .any
-  | "all", [v] => match parseVals v with | some (.bools l) => some (.all l) | _ => none
-  | "min", [v] => match parseVals v with | some (.ints l) => some (.min l) | _ => none
-  | "max", [v] => match parseVals v with | some (.ints l) => some (.max l) | _ => none
+  | "all", [v] => (parseVals v).map .all
+  | "min", [v] => (parseVals v).map .min
+  | "max", [v] => (parseVals v).map .max
   | "nb", [] => some .nb
   | "nth", [k, d, v] => do pure (.nth (← k.toNat?) (← d.toInt?) (← parseVals v))
   | "first", [v] => (parseVals v).map .first
   | "from", [d, v] => do pure (.from_ (← d.toInt?) (← parseVals v))
+  | "pnth", [ps, k, d, v] => do pure (.pnth (← parseNats ps) (← k.toNat?) (← d.toInt?) (← parseVals v))
+  | "pfirst", [ps, v] => do pure (.pfirst (← parseNats ps) (← parseVals v))
   | "hasrole", [] => some .hasrole
   | "rank", [c, b] => match parseVals c, parseVals b with
     | some (.ints c), some (.bools b) => some (.rank c b) | _, _ => none
+  | "partner", [v] => (parseVals v).map .partner
+  | "project", [v] => (parseVals v).map .project
+  | "call", [v] => match parseVals v with | some (.ints l) => some (.call l) | _ => none
   | _, _ => none
 
-def GOp.level : GOp → Level
-  | .hasrole | .rank .. => .person
-  | _ => .group
+/-- is the method called on the person population (`none` = on whatever the chain ends on) -/
+def GOp.onPerson : GOp → Option Bool
+  | .hasrole | .rank .. | .partner .. => some true
+  | .call .. => none
+  | _ => some false
 
-/-- typed answer of an op: left = text as the op itself prints it, right = the same values as
-extended integers (for chains) -/
-def runOp (p : Pop) (role : Option Role) : GOp → Except String (String × List EInt)
-  | .sum v => (groupSum p v.toInts role).map fun r => (showList showI r, r.map .fin)
+/-- `projectable` methods are transformed by the projectors, the others (`project`) are not -/
+def GOp.projectable : GOp → Bool
+  | .project .. => false
+  | _ => true
+
+def ofBools (r : List Bool) : String × List EInt := (showList showB r, r.map (.fin ∘ b2i))
+def ofInts (r : List Int) : String × List EInt := (showList showI r, r.map .fin)
+def ofE (r : List EInt) : String × List EInt := (showList showE r, r)
+
+/-- typed answer of a method on the population of entity `e` of the world (`rank` and `partner`
+refer to entity 0): left = text as the method itself prints it, right = the same values as extended
+integers (for chains).  `role` comes with the index of the entity it belongs to. -/
+def runOp (w : World) (lvl : Level) (role : Option (Nat × Role)) (gop : GOp) :
+    Except String (String × List EInt) :=
+  let e := match lvl with | .group e => e | .person => 0
+  let p := w.pop e
+  -- a role of another entity is outside the protocol
+  let ro : Except String (Option Role) := match role with
+    | none => .ok none
+    | some (er, r) => if lvl = .person || er = e then .ok (some r) else .error "role of another entity"
+  match ro with
+  | .error x => .error x
+  | .ok ro =>
+  match gop with
+  | .sum v => (groupSum p v.toInts ro).map ofInts
   | .any v => (match v with
-      | .bools l => groupAny p l role
-      | .ints l => groupAnyI p l role).map fun r => (showList showB r, r.map (.fin ∘ b2i))
-  | .all l => (groupAll p l role).map fun r => (showList showB r, r.map (.fin ∘ b2i))
-  | .min l => (groupMin p l role).map fun r => (showList showE r, r)
-  | .max l => (groupMax p l role).map fun r => (showList showE r, r)
-  | .nb => (nbPersons p role).map fun r => (showList showI r, r.map .fin)
+      | .bools l => groupAny p l ro
+      | .ints l => groupAnyI p l ro).map ofBools
+  | .all v => (match v with
+      | .bools l => groupAll p l ro
+      | .ints l => groupAll p (l.map (· != 0)) ro).map ofBools    -- logical_and looks at truthiness
+  | .min v => (groupMin p v.toInts ro).map ofE                     -- where(.., bool, inf) is float
+  | .max v => (groupMax p v.toInts ro).map ofE
+  | .nb => (nbPersons p ro).map ofInts
   | .nth k d v => match v with
-    | .ints l => (valueNth p k l d).map fun r => (showList showI r, r.map .fin)
-    | .bools l => (valueNth p k l (d != 0)).map fun r => (showList showB r, r.map (.fin ∘ b2i))
+    | .ints l => (valueNth p k l d).map ofInts
+    | .bools l => (valueNth p k l (d != 0)).map ofBools
   | .first v => match v with
-    | .ints l => (valueFromFirst p l 0).map fun r => (showList showI r, r.map .fin)
-    | .bools l => (valueFromFirst p l false).map fun r => (showList showB r, r.map (.fin ∘ b2i))
-  | .from_ d v => match role with
+    | .ints l => (valueFromFirst p l 0).map ofInts
+    | .bools l => (valueFromFirst p l false).map ofBools
+  | .pnth pos k d v => match v with
+    | .ints l => (valueNthAssigned p pos k l d).map ofInts
+    | .bools l => (valueNthAssigned p pos k l (d != 0)).map ofBools
+  | .pfirst pos v => match v with
+    | .ints l => (valueNthAssigned p pos 0 l 0).map ofInts
+    | .bools l => (valueNthAssigned p pos 0 l false).map ofBools
+  | .from_ d v => match ro with
     | none => .error "role required"
-    | some ro => match v with
-      | .ints l => (valueFromPerson p l ro d).map fun r => (showList showI r, r.map .fin)
-      | .bools l => (valueFromPerson p l ro (d != 0)).map fun r => (showList showB r, r.map (.fin ∘ b2i))
+    | some r => match v with
+      | .ints l => (valueFromPerson p l r d).map ofInts
+      | .bools l => (valueFromPerson p l r (d != 0)).map ofBools
   | .hasrole => match role with
     | none => .error "role required"
-    | some ro => .ok (showList showB (p.hasRole ro), (p.hasRole ro).map (.fin ∘ b2i))
-  | .rank c b => (getRank p c b).map fun r => (showList showI r, r.map .fin)
+    | some (er, r) => .ok (ofBools ((w.pop er).hasRole r))
+  | .rank c b => (getRank (w.pop 0) c b).map ofInts
+  | .partner v => match role with
+    | some (0, r) => (valueFromPartner (w.pop 0) v.toInts r 0).map ofInts   -- select(.., default 0) promotes bools
+    | _ => .error "role required"
+  | .project v => match v, ro with
+    | .bools l, none => (project p l false none).map ofBools
+    | v, ro => (project p v.toInts 0 ro).map ofInts                -- numpy promotes where(c, bool, 0)
+  | .call l =>
+    let size := match lvl with | .person => (w.pop 0).ms.length | .group e => (w.pop e).n
+    if l.length = size then .ok (ofInts l) else .error "ValueError: size"
 
-def parseShortcuts (t : RoleTable) (s : String) : Option (List Shortcut) :=
+/-- role argument with the entity it belongs to: `t<k>`/`f<k>` household, `T<k>`/`F<k>` second entity -/
+def parseRoleArg2 (ts : List RoleTable) (s : String) : Option (Option (Nat × Role)) :=
+  if s = "-" then some none
+  else
+    let lower := s.front = 't' || s.front = 'f'
+    let e := if lower then 0 else 1
+    let s' := if lower then s else (if s.front = 'T' then "t" else if s.front = 'F' then "f" else "?") ++ (s.drop 1).toString
+    match ts[e]? with
+    | none => none
+    | some t => match parseRoleArg t s' with
+      | some (.role r) => some (some (e, r))
+      | _ => none
+
+def parseShortcuts (ts : List RoleTable) (s : String) : Option (List Shortcut) :=
   (s.splitOn ".").mapM fun x =>
-    if x = "h" then some .entity
+    if x = "h" then some (.entity 0)
+    else if x = "k" then some (.entity 1)
     else if x = "fp" then some .firstPerson
     else if x = "x" then some .other
-    else match parseRoleArg t x with
-      | some (.role r) => some (.role r)
+    else match parseRoleArg2 ts x with
+      | some (some (_, r)) => some (.role r)
       | _ => none
+
+def parseStart (s : String) : Option Level :=
+  if s = "p" then some .person else if s = "g" then some (.group 0) else if s = "G" then some (.group 1) else none
+
+def runChain (w : World) (ts : List RoleTable) (role : String) (start sc op2 : String) (rest2 : List String) : String :=
+  match parseStart start, parseShortcuts ts sc, parseOp op2 rest2, parseRoleArg2 ts role with
+  | some lvl, some ss, some gop, some ro =>
+    out showE (chainCall w (.fin 0) lvl ss gop.projectable fun l =>
+      let okLevel := match gop.onPerson with
+        | none => true
+        | some b => b == (l == Level.person)
+      if okLevel then (runOp w l ro gop).map (·.2) else .error "wrong level")
+  | _, _, _, _ => "BAD"
 
 def handleGrp (args : List String) : String :=
   match args with
@@ -155,35 +240,31 @@ def handleGrp (args : List String) : String :=
     match parseRoleTable rt, cnt.toNat?, parseMembers mem with
     | some t, some n, some ms =>
       let p : Pop := ⟨n, ms⟩
-      match parseRoleArg t role with
-      | none => "BAD"
-      | some .invalid =>
+      if role = "?" then
         -- `check_role_validity` raises for anything that is not a Role (nb_persons fails on the
         -- attribute access instead); every op taking a role answers ERR
         "ERR"
-      | some ra =>
-        let ro : Option Role := match ra with | .role r => some r | _ => none
+      else
         match op, rest with
         | "positions", [] => out toString (membersPosition p.ids)
         | "omap", [] => showList toString (orderedMap p.ids)
-        | "project", [v] => match parseVals v with
-          | some (.ints l) => out showI (project p l 0 ro)
-          | some (.bools l) => match ro with
-            | none => out showB (project p l false none)
-            | some r => out showI (project p (l.map b2i) 0 (some r))   -- numpy promotes where(c, bool, 0)
-          | none => "BAD"
-        | "chain", start :: sc :: op2 :: rest2 =>
-          match (if start = "p" then some Level.person else if start = "g" then some Level.group else none),
-                parseShortcuts t sc, parseOp op2 rest2 with
-          | some lvl, some ss, some gop =>
-            out showE (chainCall p (.fin 0) lvl ss fun l =>
-              if l = gop.level then (runOp p ro gop).map (·.2) else .error "wrong level")
+        | "chain", start :: sc :: op2 :: rest2 => runChain (World.single p) [t] role start sc op2 rest2
+        | "chain2", rt2 :: cnt2 :: mem2 :: ct :: start :: sc :: op2 :: rest2 =>
+          match parseRoleTable rt2, cnt2.toNat?, parseMembers mem2 with
+          | some t2, some n2, some ms2 =>
+            let c0 : List Nat := if ct = "c1" || ct = "c3" then [1] else []
+            let c1 : List Nat := if ct = "c2" || ct = "c3" then [0] else []
+            let w : World := ⟨[p, ⟨n2, ms2⟩], fun e => if e = 0 then c0 else if e = 1 then c1 else []⟩
+            runChain w [t, t2] role start sc op2 rest2
           | _, _, _ => "BAD"
-        | _, _ => match parseOp op rest with
-          | some gop => match runOp p ro gop with
+        | _, _ => match parseOp op rest, parseRoleArg2 [t] role with
+          | some (.call _), _ => "BAD"
+          | some gop, some ro =>
+            let lvl : Level := if gop.onPerson = some true then .person else .group 0
+            match runOp (World.single p) lvl ro gop with
             | .ok (s, _) => s
             | .error _ => "ERR"
-          | none => "BAD"
+          | _, _ => "BAD"
     | _, _, _ => "BAD"
   | _ => "BAD"
 
